@@ -40,6 +40,9 @@ HARNESSES = {
     'compact_as_unnamed_upto3': dict(crate='scale-typegen', file='typegen.rs', complete=False, tier='quick',
                                      bound='NoFields / Unnamed with <= 3 fields; first field symbolic over {Primitive x 15, Vec, Array, Tuple}',
                                      what='could_derive_as_compact on the real crate'),
+    'contains_type_path_catalogue': dict(crate='scale-typegen', file='typegen.rs', complete=False, tier='quick',
+                                         bound='one fixed registry {a::b, c} x 7 fixed query paths (no symbolic data)',
+                                         what='UNMODIFIED registry_contains_type_path separates exact equality from prefix / suffix / last-segment / length-only comparison'),
     'contains_type_path_n1': dict(crate='scale-typegen', file='typegen.rs', complete=False, tier='thorough',
                                   bound='<= 1 registry type, paths of <= 1 segment over the pool {"a","b"}',
                                   what='UNMODIFIED registry_contains_type_path <=> some registry type has exactly this path (cross-check of the assumed std contracts of U-CONTAINS)'),
